@@ -5,7 +5,7 @@ hand model mirrors.  Fails closed: any unexpected shape leaves the definitions a
 """
 import ast
 
-from extract_lib import Unsupported, emit, find_func, lean_chars, parse_module
+from extract_lib import Tr, Unsupported, emit, find_func, lean_chars, parse_module
 
 CLS = "ExceptionFormatter"
 
@@ -76,9 +76,79 @@ def inline_aliases(fn):
     return fn
 
 
+class _NoneTests(ast.NodeTransformer):
+    """`x is None` -> the boolean name `x__isnone`; `x is not None` -> `not x__isnone` (so that `Tr` can translate)"""
+
+    def visit_Compare(self, node):
+        self.generic_visit(node)
+        if len(node.ops) == 1 and isinstance(node.left, ast.Name) and isinstance(node.comparators[0], ast.Constant) \
+                and node.comparators[0].value is None:
+            nm = ast.Name(id=node.left.id + "__isnone", ctx=ast.Load())
+            if isinstance(node.ops[0], ast.Is):
+                return nm
+            if isinstance(node.ops[0], ast.IsNot):
+                return ast.UnaryOp(op=ast.Not(), operand=nm)
+        return node
+
+
+def _pure_bool(node, params):
+    """expression built from and/or/not over parameters and `self.…` attributes only"""
+    if isinstance(node, ast.BoolOp):
+        return all(_pure_bool(v, params) for v in node.values)
+    if isinstance(node, ast.UnaryOp) and isinstance(node.op, ast.Not):
+        return _pure_bool(node.operand, params)
+    if isinstance(node, ast.Name):
+        return node.id in params
+    if isinstance(node, ast.Attribute):
+        return _self_chain(node)
+    return False
+
+
+def inline_bool_locals(fn):
+    """copy of the function in which every local assigned exactly once, at the top level of the body, by a pure
+    boolean expression over parameters / `self.…` attributes (never stored in the function) is replaced by that
+    expression: `g = a and not self._b; if c or g:` and `if c or (a and not self._b):` get the same shape"""
+    import copy
+    fn = copy.deepcopy(fn)
+    params = {a.arg for a in fn.args.args + fn.args.kwonlyargs + fn.args.posonlyargs}
+    stores = {}
+    for n in ast.walk(fn):
+        if isinstance(n, ast.Name) and isinstance(n.ctx, (ast.Store, ast.Del)):
+            stores[n.id] = stores.get(n.id, 0) + 1
+    if any(isinstance(n, ast.Name) and isinstance(n.ctx, ast.Store) and n.id in params for n in ast.walk(fn)
+           if not isinstance(n, ast.arg)):
+        stored_params = {n.id for n in ast.walk(fn) if isinstance(n, ast.Name) and isinstance(n.ctx, ast.Store) and n.id in params}
+    else:
+        stored_params = set()
+    attr_stores = {_src(n) for n in ast.walk(fn) if isinstance(n, ast.Attribute) and isinstance(n.ctx, (ast.Store, ast.Del))}
+    alias = {}
+    for s in fn.body:
+        if isinstance(s, ast.Assign) and len(s.targets) == 1 and isinstance(s.targets[0], ast.Name) \
+                and stores.get(s.targets[0].id) == 1 and s.targets[0].id not in params \
+                and _pure_bool(s.value, params - stored_params) \
+                and not any(_src(a) in attr_stores for a in ast.walk(s.value) if isinstance(a, ast.Attribute)):
+            alias[s.targets[0].id] = s.value
+
+    class T(ast.NodeTransformer):
+        def visit_Assign(self, node):
+            if len(node.targets) == 1 and isinstance(node.targets[0], ast.Name) and node.targets[0].id in alias \
+                    and node.value is alias[node.targets[0].id]:
+                return None
+            return self.generic_visit(node)
+
+        def visit_Name(self, node):
+            if isinstance(node.ctx, ast.Load) and node.id in alias:
+                return copy.deepcopy(alias[node.id])
+            return node
+
+    fn = T().visit(fn)
+    ast.fix_missing_locations(fn)
+    return fn, stored_params
+
+
 def generate():
     errors = []
-    body = "import LoguruModel.Py.Basic\nset_option linter.unusedVariables false\nnamespace Exc.Gen\n\n"
+    body = "import LoguruModel.Py.Basic\nimport LoguruModel.Py.Slice\nset_option linter.unusedVariables false\nnamespace Exc.Gen\n\n"
     try:
         tree, _ = parse_module("_better_exceptions.py")
 
@@ -165,13 +235,86 @@ def generate():
         # ---- _extract_frames: insertion at the front, suffix limit, diagnose guard
         ef = find_func(tree, "_extract_frames", CLS)
         srcs = [_src(n) for n in ast.walk(ef) if isinstance(n, (ast.Assign, ast.Expr, ast.If))]
-        if "infos = infos[-limit:]" not in srcs:
-            raise Unsupported("_extract_frames: limit is not applied as infos[-limit:]")
         if not any(s.startswith("infos.insert(0, ") for s in srcs):
             raise Unsupported("_extract_frames: caller frames are not inserted at the front")
-        early = [n for n in ef.body if isinstance(n, ast.If) and isinstance(n.body[0], ast.Return)]
-        if len(early) != 1 or _src(early[0].test) != "tb is None or (limit is not None and limit <= 0)":
-            raise Unsupported("_extract_frames: early-return test: " + " / ".join(_src(n.test) for n in early))
+        # ---- _extract_frames, statement level: the decision kernels and the limit slice are REGENERATED (the model
+        #      `Exc.extractLoop` is defined through them; `C13.extract_loop_refines` needs them to mean what the
+        #      property says), only the order of the statements is pinned here
+        ef2, _stored = inline_bool_locals(inline_aliases(ef))
+        ef2 = _NoneTests().visit(ef2)
+        pos = [a.arg for a in ef2.args.args]
+        kwo = [a.arg for a in ef2.args.kwonlyargs]
+        if len(pos) != 3 or "limit" not in kwo or "from_decorator" not in kwo:
+            raise Unsupported("_extract_frames: parameters %r / %r" % (pos, kwo))
+        p_tb, p_first = pos[1], pos[2]
+        kenv = {p_tb + "__isnone": ("tbNone", "bool"), "limit__isnone": ("limitNone", "bool"), "limit": ("limit", "int"),
+                p_first: ("isFirst", "bool"), "from_decorator": ("fromDec", "bool"),
+                "self._backtrace": ("backtrace", "bool"), "infos": ("infosNonEmpty", "bool")}
+
+        def kern(node, what):
+            try:
+                t, ty = Tr(kenv).tr(node)
+            except Unsupported as e:
+                raise Unsupported("_extract_frames: %s `%s` is outside the translated subset (%s)" % (what, _src(node), e))
+            if ty != "bool":
+                raise Unsupported("_extract_frames: %s is not a boolean expression" % what)
+            return t
+
+        top = ef2.body
+        early = [i for i, n in enumerate(top) if isinstance(n, ast.If) and len(n.body) == 1 and isinstance(n.body[0], ast.Return)
+                 and not n.orelse]
+        # one `if a or b: return …` or the same split into consecutive `if a: return …` / `if b: return …`
+        if not early or early != list(range(early[0], early[0] + len(early))):
+            raise Unsupported("_extract_frames: early returns at statements %r" % early)
+        rets = set(_src(top[i].body[0].value) for i in early)
+        ret = top[early[0]].body[0].value
+        if len(rets) != 1 or not (isinstance(ret, ast.Tuple) and len(ret.elts) == 2):
+            raise Unsupported("_extract_frames: early return values %r" % sorted(rets))
+        k_early = "(" + " || ".join(kern(top[i].test, "early-return test") for i in early) + ")"
+        early = [early[-1]]
+        walk_if = [i for i, n in enumerate(top) if isinstance(n, ast.If) and any(isinstance(x, ast.While) for x in n.body)]
+        if len(walk_if) != 1 or top[walk_if[0]].orelse:
+            raise Unsupported("_extract_frames: the upward walk is not under exactly one top-level `if`")
+        wif = top[walk_if[0]]
+        k_walk = kern(wif.test, "walk test")
+        wl2 = [x for x in wif.body if isinstance(x, ast.While)]
+        brk = [n for n in ast.walk(wl2[0]) if isinstance(n, ast.If) and len(n.body) == 1 and isinstance(n.body[0], ast.Break)]
+        if len(wl2) != 1 or len(brk) != 1:
+            raise Unsupported("_extract_frames: walk loop / break shape")
+        k_break = kern(brk[0].test, "break test")
+        marks = [n for n in wif.body if isinstance(n, ast.If) and not n.orelse and any(
+            isinstance(x, ast.Assign) and isinstance(x.targets[0], ast.Subscript) for x in n.body)]
+        if len(marks) != 1 or wif.body.index(marks[0]) < wif.body.index(wl2[0]):
+            raise Unsupported("_extract_frames: catch-point marking is not one `if` after the walk loop")
+        k_mark = kern(marks[0].test, "marking test")
+        mt = [x for x in marks[0].body if isinstance(x, ast.Assign) and isinstance(x.targets[0], ast.Subscript)]
+        if len(mt) != 1 or _src(mt[0].targets[0]) != "infos[-1]":
+            raise Unsupported("_extract_frames: the marked entry is not infos[-1]")
+        if not any("self._catch_point_identifier" in _src(x) for x in marks[0].body):
+            raise Unsupported("_extract_frames: the mark is not self._catch_point_identifier")
+        rest_loop = [i for i, n in enumerate(top) if isinstance(n, ast.While) and _src(n.test) == p_tb]
+        lim_if = [i for i, n in enumerate(top) if isinstance(n, ast.If) and not n.orelse and len(n.body) == 1
+                  and isinstance(n.body[0], ast.Assign) and _src(n.body[0].targets[0]) == "infos"
+                  and isinstance(n.body[0].value, ast.Subscript) and _src(n.body[0].value.value) == "infos"]
+        out_loop = [i for i, n in enumerate(top) if isinstance(n, ast.For) and _src(n.iter) == "infos"]
+        if len(rest_loop) != 1 or len(lim_if) != 1 or len(out_loop) != 1:
+            raise Unsupported("_extract_frames: traceback loop / limit / output loop: %r %r %r" % (rest_loop, lim_if, out_loop))
+        if not (early[0] < walk_if[0] < rest_loop[0] < lim_if[0] < out_loop[0]):
+            raise Unsupported("_extract_frames: statement order early-return < walk < traceback loop < limit < output changed")
+        k_limapp = kern(top[lim_if[0]].test, "limit test")
+        sl = top[lim_if[0]].body[0].value.slice
+        if not isinstance(sl, ast.Slice) or sl.step is not None:
+            raise Unsupported("_extract_frames: limit is not applied by a step-1 slice: " + _src(top[lim_if[0]].body[0]))
+
+        def bound(nd):
+            if nd is None:
+                return "none"
+            t, ty = Tr({"limit": ("limit", "int")}).tr(nd)
+            if ty != "int":
+                raise Unsupported("slice bound type")
+            return "(some %s)" % t
+
+        k_slice = "Py.slice %s %s l" % (bound(sl.lower), bound(sl.upper))
         guarded = False
         for n in ast.walk(ef):
             if isinstance(n, ast.If) and _src(n.test) == "self._diagnose":
@@ -195,7 +338,8 @@ def generate():
             raise Unsupported("_extract_frames: upward walk body shape")
 
         def parent_break(stmts):
-            return [n for n in stmts if isinstance(n, ast.If) and _src(n.test) == "get_parent_only"
+            # (what the test says is regenerated as `walkBreaks`; here only WHERE the `if …: break` sits)
+            return [n for n in stmts if isinstance(n, ast.If)
                     and len(n.body) == 1 and isinstance(n.body[0], ast.Break) and not n.orelse]
 
         nbreaks = sum(1 for n in ast.walk(wl) if isinstance(n, ast.Break))
@@ -278,6 +422,84 @@ def generate():
         if "exception_only = traceback.format_exception_only(exc_type, exc_value)" not in stm:
             raise Unsupported("exception_only is not traceback.format_exception_only")
 
+        # ---- every call that runs code of a user object (repr / str / ascii / format / hash of it) is inside a `try`
+        #      whose handler catches Exception; the closing-line block (message-less AssertionError) is regenerated
+        cls_node = [n for n in ast.walk(tree) if isinstance(n, ast.ClassDef) and n.name == CLS][0]
+        parent = {}
+        for n in ast.walk(cls_node):
+            for ch in ast.iter_child_nodes(n):
+                parent[ch] = n
+
+        def catches_all(tr_node):
+            for hh in tr_node.handlers:
+                ts = [None] if hh.type is None else (hh.type.elts if isinstance(hh.type, ast.Tuple) else [hh.type])
+                if any(t is None or _src(t) in ("Exception", "BaseException") for t in ts):
+                    return True
+            return False
+
+        def guarded_by(node):
+            """the innermost `try` (with a catch-all handler) whose BODY contains the node, within its function"""
+            ch, up = node, parent.get(node)
+            while up is not None and not isinstance(up, (ast.FunctionDef, ast.Lambda)):
+                if isinstance(up, ast.Try) and any(ch is b for b in up.body) and catches_all(up):
+                    return up
+                ch, up = up, parent.get(up)
+            return None
+
+        user_calls = [n for n in ast.walk(cls_node) if isinstance(n, ast.Call) and isinstance(n.func, ast.Name)
+                      and n.func.id in ("repr", "str", "ascii", "format", "hash") and n.args
+                      and not isinstance(n.args[0], ast.Constant)]
+        if len(user_calls) < 2:
+            raise Unsupported("expected at least repr(v) and str(exc_value) among the user-object calls, found %r"
+                              % [_src(n) for n in user_calls])
+        unguarded = [_src(n) for n in user_calls if guarded_by(n) is None]
+        strs = [n for n in ast.walk(fe) if isinstance(n, ast.Call) and isinstance(n.func, ast.Name) and n.func.id == "str"
+                and len(n.args) == 1 and _src(n.args[0]) in ("exc_value", "value")]
+        if len(strs) != 1:
+            raise Unsupported("_format_exception: %d calls of str(exc_value)" % len(strs))
+        st = strs[0]
+        while not isinstance(st, ast.stmt):
+            st = parent[st]
+        if not (isinstance(st, ast.Assign) and len(st.targets) == 1 and isinstance(st.targets[0], ast.Name)
+                and _src(st.value) == "bool(%s)" % _src(strs[0])):
+            raise Unsupported("_format_exception: str(exc_value) is not used as `<name> = bool(str(exc_value))`: " + _src(st))
+        hm_name = st.targets[0].id
+        gtry = guarded_by(strs[0])
+        on_error = True
+        outer = st
+        if gtry is not None:
+            if len(gtry.body) != 1 or gtry.orelse or gtry.finalbody or len(gtry.handlers) != 1:
+                raise Unsupported("_format_exception: shape of the try around str(exc_value)")
+            hb = gtry.handlers[0].body
+            if not (len(hb) == 1 and isinstance(hb[0], ast.Assign) and _src(hb[0].targets[0]) == hm_name
+                    and isinstance(hb[0].value, ast.Constant) and isinstance(hb[0].value.value, bool)):
+                raise Unsupported("_format_exception: the handler of a raising __str__ does not set %s to a constant" % hm_name)
+            on_error = hb[0].value.value
+            outer = gtry
+        gif = parent[outer]
+        if not isinstance(gif, ast.If) or not any(outer is b for b in gif.body):
+            raise Unsupported("_format_exception: str(exc_value) is not evaluated under an `if`")
+        cenv = {"self._diagnose": ("diagnose", "bool"), "frames": ("framesNonEmpty", "bool"),
+                "final_source": ("finalSourceNonEmpty", "bool"), hm_name: ("hasMessage", "bool")}
+
+        def is_assert(tr_, node):
+            if len(node.args) == 2 and _src(node.args[0]) in ("exc_type", "type(value)", "type(exc_value)") \
+                    and _src(node.args[1]) == "AssertionError":
+                return ("isAssertion", "bool")
+            raise Unsupported("issubclass arguments: " + _src(node))
+
+        ctr = Tr(cenv, calls={"issubclass": is_assert})
+        k_cguard, ty1 = ctr.tr(gif.test)
+        appends = [b for b in gif.body if isinstance(b, ast.If) and hm_name in [x.id for x in ast.walk(b.test) if isinstance(x, ast.Name)]]
+        if len(appends) != 1 or appends[0].orelse or gif.body.index(appends[0]) < gif.body.index(outer):
+            raise Unsupported("_format_exception: the source-appending `if` after str(exc_value)")
+        k_append, ty2 = ctr.tr(appends[0].test)
+        if ty1 != "bool" or ty2 != "bool":
+            raise Unsupported("closing-line tests are not boolean")
+        app_src = " ".join(_src(b) for b in appends[0].body)
+        if "final_source" not in app_src or "': '" not in app_src or "error_message" not in app_src:
+            raise Unsupported("_format_exception: what is appended for a message-less AssertionError: " + app_src)
+
         # ---- the formatter is built with the default max_length
         ltree, _ = parse_module("_logger.py")
         built = [n for n in ast.walk(ltree) if isinstance(n, ast.Call) and _src(n.func) == "ExceptionFormatter"]
@@ -327,6 +549,29 @@ def generate():
         body += "    `_from_decorator` is assigned in `Catcher.__init__` only and is what `__exit__` hands to `_log` -/\n"
         body += "def catchContextFlag : Bool := %s\ndef catchWrapperFlag : Bool := %s\n" % (
             "true" if context_flag else "false", "true" if wrapper_flag else "false")
+        body += "/-- calls of repr / str / ascii / format / hash on a non-literal in ExceptionFormatter: %s;\n" % ", ".join(
+            "%s%s" % (_src(n), "" if guarded_by(n) is not None else " [UNGUARDED]") for n in user_calls)
+        body += "    true iff each is in the body of a `try` with an `except Exception` (or wider) handler -/\n"
+        body += "def userCallsGuarded : Bool := %s\n" % ("true" if not unguarded else "false")
+        body += "/-- `%s = bool(str(exc_value))` is the body of `try: … except Exception: %s = <const>` -/\n" % (hm_name, hm_name)
+        body += "def strGuarded : Bool := %s\ndef hasMessageOnError : Bool := %s\n" % (
+            "true" if gtry is not None else "false", "true" if on_error else "false")
+        body += "/-- the `if` under which `str(exc_value)` is evaluated at all -/\n"
+        body += "def closingGuard (diagnose framesNonEmpty : Bool) : Bool := %s\n" % k_cguard
+        body += "/-- the `if` that appends `\": \" + final_source` to the closing line -/\n"
+        body += "def assertAppend (isAssertion finalSourceNonEmpty hasMessage : Bool) : Bool := %s\n" % k_append
+        body += "/-- `_extract_frames`: `if <test>: return frames, final_source` (nothing is shown) -/\n"
+        body += "def earlyReturn (tbNone limitNone : Bool) (limit : Int) : Bool := %s\n" % k_early
+        body += "/-- the test of the `if` around the upward walk through `f_back` -/\n"
+        body += "def walkCond (backtrace isFirst fromDec : Bool) : Bool := %s\n" % k_walk
+        body += "/-- the test of `if …: break` inside the walk (only the one calling frame is wanted) -/\n"
+        body += "def walkBreaks (backtrace isFirst fromDec : Bool) : Bool := %s\n" % k_break
+        body += "/-- the test of the `if` that appends the catch-point identifier to `infos[-1]` -/\n"
+        body += "def markCond (infosNonEmpty backtrace isFirst fromDec : Bool) : Bool := %s\n" % k_mark
+        body += "/-- the test of the `if` around `infos = infos[…]` -/\n"
+        body += "def limitApplies (limitNone : Bool) : Bool := %s\n" % k_limapp
+        body += "/-- `infos = infos[%s]` with Python's slice semantics -/\n" % _src(sl)
+        body += "def limitSlice {α : Type} (limit : Int) (l : List α) : List α := %s\n" % k_slice
         body += "/-- default of `ExceptionFormatter(max_length=…)`; `_logger.py` never overrides it -/\n"
         body += "def maxLength : Nat := %d\n" % max_length
         body += "/-- `v[: max_length - k] + \"...\"` -/\ndef cut : Nat := %d\n" % cut_n
